@@ -22,20 +22,32 @@ Section P.
       end.
   Proof. unfold send_arg. destruct (c_plugs e) as [[|p [|q r]]|]; reflexivity. Qed.
 
-  (* first visit of a send: exactly the formatted string is appended to the device's output queue, once;
+  Lemma lastn_all {A} n (l : list A) : (length l <= n)%nat -> lastn n l = l.
+  Proof. intros H. unfold lastn. replace (length l - n)%nat with O by lia. reflexivity. Qed.
+
+  (* first visit of a send: exactly the formatted string is appended to the device's output queue, once (when the 64 KiB
+     queue would overflow, the oldest unsent bytes are overwritten: since the repair of F38 this no longer aborts);
      later visits (processing = true) append nothing and finish when the queue has drained *)
   Lemma process_send_first now d a store e rest fmt fin d' a' store' evs :
-    c_processing e = false ->
+    c_processing e = false -> (length (sd_to d) <= Z.to_nat MAX_DEV_BUF)%nat ->
     process_send compress now d a store e rest fmt = Ok (fin, d', a', store', evs) ->
     exists str, hsprintf1 fmt (send_arg compress e) = Some str
-      /\ sd_to d' = sd_to d ++ str /\ sd_from d' = sd_from d
+      /\ sd_to d' = lastn (Z.to_nat MAX_DEV_BUF) (sd_to d ++ str)
+      /\ ((length (sd_to d ++ str) <= Z.to_nat MAX_DEV_BUF)%nat -> sd_to d' = sd_to d ++ str)
+      /\ sd_from d' = sd_from d
       /\ In (EvSent str) evs /\ store' = store
-      /\ fin = (match sd_to d ++ str with [] => true | _ => false end).
+      /\ fin = (match sd_to d' with [] => true | _ => false end).
   Proof.
-    intros Hp. unfold process_send. rewrite Hp.
+    intros Hp Hcap. unfold process_send. rewrite Hp.
+    assert (Hfix : SEND_OVERRUN_ASSERT = false) by reflexivity.      (* source fact: the assert is gone (F38) *)
     destruct (hsprintf1 fmt (send_arg compress e)) as [str|]; [|discriminate].
-    destruct (Nat.ltb _ _); [discriminate|]. cbn [sd_to set_to].
-    destruct (sd_to d ++ str) eqn:E; intros H; inversion H; subst; exists str; cbn; rewrite ?E; intuition.
+    destruct (Nat.ltb_spec (Z.to_nat MAX_DEV_BUF - length (sd_to d)) (length str)) as [Hlt|Hge].
+    - rewrite Hfix. cbn [sd_to set_to].
+      destruct (lastn (Z.to_nat MAX_DEV_BUF) (sd_to d ++ str)) eqn:E; intros H; inversion H; subst; exists str; cbn [sd_to sd_from set_to];
+        rewrite ?E; (split; [reflexivity|]); (split; [reflexivity|]); (split; [intros Hl; rewrite app_length in Hl; lia|]); intuition.
+    - cbn [sd_to set_to]. assert (Hl : (length (sd_to d ++ str) <= Z.to_nat MAX_DEV_BUF)%nat) by (rewrite app_length; lia).
+      destruct (sd_to d ++ str) eqn:E; intros H; inversion H; subst; exists str; cbn [sd_to sd_from set_to];
+        rewrite ?E; rewrite (lastn_all _ _ Hl); intuition.
   Qed.
 
   Lemma process_send_again now d a store e rest fmt fin d' a' store' evs :
